@@ -454,14 +454,19 @@ def main(tier, seed):
     for i in range(nrand):
         progs.append(fcorpus.random_prog(rng, i))
     K, max_paths = (3, 80) if tier == "quick" else (4, 300)
-    for part in pmap("vf.checks.c03", "work", [{"progs": [p], "K": K, "max_paths": max_paths} for p in progs]):
+    # the bounded-exhaustive user-type move / overwrite patterns of C12 (fcorpus.move_patterns), here for their values
+    moves = fcorpus.move_patterns(2)[::3] if tier == "quick" else (fcorpus.move_patterns(2) + fcorpus.move_patterns(3)[711::8])
+    nmoves = len(moves)
+    items = [{"progs": [p], "K": K, "max_paths": max_paths} for p in progs]
+    items += [{"progs": c, "K": K, "max_paths": max_paths} for c in chunks(moves, max(len(moves) // 6, 1))]
+    for part in pmap("vf.checks.c03", "work", items):
         run.absorb(part)
     side, side_cands = side_checks(progs, do_conformance=True)
     run.candidates.extend(side_cands)
     run.extra.update({"side_" + k: v for k, v in side.items()})
     if side["conformance_mismatches"]:
         run.harness_errors.append("fsym disagrees with gfortran on concrete inputs: %r" % side["conformance_mismatches"][:3])
-    run.bounds = {"programs": len(progs), "runs_K": K, "max_paths_per_program": max_paths, "user_type_length": fcorpus.UT_LEN,
+    run.bounds = {"programs": len(progs), "move_pattern_programs": nmoves, "runs_K": K, "max_paths_per_program": max_paths, "user_type_length": fcorpus.UT_LEN,
                   "inputs": "symbolic reals (exact arithmetic)"}
     run.selftests = selftests()
     if not all(run.selftests.values()):
